@@ -91,7 +91,12 @@ fn check_trunc(rep: &mut Report, model: &mut Model, ops: &[Op], b: &Built, rng: 
         let case = || json!({"ops": ops.iter().map(|o| o.to_json()).collect::<Vec<_>>(), "cut": cut, "archive": hx(&t)});
         rep.eval(fnv(&t), true);
         rep.count("truncated");
-        let r = linear(&t, &cfg, &names, rng);
+        // whatever is selected — everything, nothing, a name the archive does not hold — the missing marker is noticed
+        let sel_k = fnv(&t) % 4;
+        let sel: Vec<String> = match sel_k { 0 => vec![], 1 => vec!["no-such-name".to_string()], _ => names.clone() };
+        rep.count(&format!("truncated:selection:{}", ["nothing", "unknown-name", "all", "all"][sel_k as usize]));
+        let names = &sel;
+        let r = linear(&t, &cfg, names, rng);
         let m = model.call(json!({"cmd":"linear.run","stream":hx(&t[9..]),"chosen":names.iter().map(|n| hx(n.as_bytes())).collect::<Vec<_>>()}));
         rep.traces_validated += 1;
         // The footer is glued behind the cut (the reader cannot be opened without it), so the parser
